@@ -1,4 +1,5 @@
 import MwVerif.Lemmas.Tree.Replace
+import MwVerif.Lemmas.Passes.FixParagraphs
 /-!
 # C07 — cleaning is lossless for ordinary content (primitive level)
 
@@ -23,5 +24,9 @@ theorem c07_remove_textless_lossless (x : Nat) (t : T) (h : ∀ c : T, c.id = x 
   apply words_replace
   intro c hc
   rw [h c hc]; rfl
+
+/-- **C07 (`fix_paragraphs` is lossless).**  The pass keeps every word, in reading order. -/
+theorem c07_fix_paragraphs_lossless (n : Nat) (t : T) : (fixParagraphs n t).words = t.words :=
+  (fixParagraphs_order n t).2
 
 end MwVerif.Tree
